@@ -153,6 +153,7 @@ pub fn u_term(f: &F, min_components: usize, thorough: bool) -> Vec<LTerm> {
             out.push(LTerm::Set { left_bracket: l.to_string(), terms: elems.clone(), right_bracket: r.to_string() });
         }
     }
+    out.extend(reducible(f));
     // deep: chains of every constructor, the nested component in every position
     for d in if thorough { vec![2usize, 3, 4, 5, 6, 7, 8, 15, 16, 17, 31, 32, 33, 64] } else { vec![2usize, 3, 8, 16, 17, 33, 64] } {
         out.extend(towers(f, d));
@@ -213,6 +214,82 @@ pub fn towers(f: &F, d: usize) -> Vec<LTerm> {
         t = makers[(i * 7) % makers.len()](t);
     }
     out.push(t);
+    out
+}
+
+/// lexical counterpart of `universe::reducible`: every constructor over (inner, sibling) where
+/// inner is every constructor over (a, $b1), in both positions, with 1..3 components, images with
+/// the placeholder in every position
+pub fn reducible(f: &F) -> Vec<LTerm> {
+    let a = atom("", "a");
+    let b = atom(f.e.atom.prefix_variable_independent, "b1");
+    let ph = atom(f.e.atom.prefix_placeholder, "");
+    let cb = &f.e.compound;
+    let img = [cb.connecter_image_extension, cb.connecter_image_intension];
+    // kinds: connecters, the two sets, copulas
+    let conns = f.connecters();
+    let cops = f.copulas();
+    let nk = conns.len() + 2 + cops.len();
+    let mk = |kind: usize, terms: Vec<LTerm>| -> Option<LTerm> {
+        if kind < conns.len() {
+            Some(LTerm::Compound { connecter: conns[kind].to_string(), terms })
+        } else if kind == conns.len() {
+            Some(LTerm::Set { left_bracket: cb.brackets_set_extension.0.to_string(), terms, right_bracket: cb.brackets_set_extension.1.to_string() })
+        } else if kind == conns.len() + 1 {
+            Some(LTerm::Set { left_bracket: cb.brackets_set_intension.0.to_string(), terms, right_bracket: cb.brackets_set_intension.1.to_string() })
+        } else if terms.len() == 2 {
+            let mut it = terms.into_iter();
+            Some(LTerm::Statement { copula: cops[kind - conns.len() - 2].to_string(), subject: Box::new(it.next().unwrap()), predicate: Box::new(it.next().unwrap()) })
+        } else {
+            None
+        }
+    };
+    let is_image = |kind: usize| kind < conns.len() && img.contains(&conns[kind]);
+    let mut out = vec![];
+    for t in 0..nk {
+        for u in 0..nk {
+            let inners: Vec<LTerm> = if is_image(u) {
+                vec![mk(u, vec![a.clone(), ph.clone(), b.clone()]).unwrap(), mk(u, vec![ph.clone(), a.clone(), b.clone()]).unwrap()]
+            } else {
+                vec![mk(u, vec![a.clone(), b.clone()]).unwrap()]
+            };
+            for inner in inners {
+                let mut lists: Vec<Vec<LTerm>> = vec![
+                    vec![inner.clone(), a.clone()],
+                    vec![inner.clone(), b.clone()],
+                    vec![a.clone(), inner.clone()],
+                    vec![b.clone(), inner.clone()],
+                    vec![inner.clone()],
+                    vec![inner.clone(), a.clone(), b.clone()],
+                    vec![inner.clone(), inner.clone()],
+                ];
+                if is_image(t) {
+                    // the placeholder in every position of (inner, a) / (inner, b) / (inner, a, b)
+                    let mut with_ph = vec![];
+                    for l in &lists {
+                        for i in 0..=l.len() {
+                            let mut v = l.clone();
+                            v.insert(i, ph.clone());
+                            with_ph.push(v);
+                        }
+                    }
+                    lists = with_ph;
+                }
+                for l in lists {
+                    if let Some(x) = mk(t, l) {
+                        out.push(x);
+                    }
+                }
+            }
+        }
+        if let Some(x) = mk(t, vec![a.clone(), a.clone()]) {
+            out.push(x);
+        }
+    }
+    // double / triple negation
+    let neg = |x: LTerm| LTerm::Compound { connecter: cb.connecter_negation.to_string(), terms: vec![x] };
+    out.push(neg(neg(a.clone())));
+    out.push(neg(neg(neg(a.clone()))));
     out
 }
 
